@@ -1,6 +1,7 @@
 import PikaVerif.Props.C06
 import PikaVerif.Lemmas.MtxProg
 import PikaVerif.Lemmas.MtxCover
+import PikaVerif.Lemmas.MtxSolo
 /-!
 # C06t — termination / bounded hand-off of the mutex operations (follow-up of C06)
 
@@ -73,19 +74,6 @@ theorem C06t_maximal_exists (n : Nat) (prog : Nat → List Op) (log : List Ev) (
   have hfull : runLog pstep (pinit n prog) (log ++ ext) = some p' := by
     rw [runLog_append, h]; simpa using hrun
   exact ⟨ext, p', hfull, hst, C06t_bounded n prog _ p' hfull⟩
-
-theorem n_of_log (n : Nat) (log : List Ev) (s : St) (h : runLog step (init n) log = some s) : s.n = n := by
-  have : ∀ (log : List Ev) (s0 s : St), runLog step s0 log = some s → s.n = s0.n := by
-    intro log
-    induction log with
-    | nil => intro s0 s h; simp at h; rw [h]
-    | cons e es ih =>
-      intro s0 s h
-      simp only [runLog] at h
-      cases hs : step s0 e with
-      | none => simp [hs] at h
-      | some s1 => simp only [hs] at h; rw [ih s1 s h, step_n _ _ _ hs]
-  exact this log _ s h
 
 /-- **Final states.**  In the final state of a maximal run of a program every task has finished its
     whole program, except tasks parked in `lock()` without a wake-up token — and if there is such
@@ -256,5 +244,81 @@ example : ∃ p, runLog pstep (pinit 2 progOpen)
     have ht' : t < 2 := ht
     revert t
     decide
+
+/-! ## Hand-off in an explicit number of events -/
+
+/-- **Hand-off bound.**  In any reachable state in which task `r` holds the mutex by program order
+    and is between operations and outside its critical section, the internal spinlock is free and
+    the front entry of the wait queue is a task `g` parked in `lock()`: `r`'s `unlock()` run alone
+    (6 events) followed by `g` run alone (6 events) is accepted and ends with `g`'s `lock()`
+    returned successfully and `g` the owner — 12 events, none of them by a third task. -/
+theorem C06t_handoff_bound (s : St) (hr : Reachable s) (r g : Nat) (rest : List Nat)
+    (hl : s.lock = none) (hp : s.pc r = .idle) (hh : s.holdsG r = true) (hcs : s.inCS r = false)
+    (hq : s.queue = g :: rest) (hg : s.pc g = .susp false) :
+    ∃ s', runLog step s (unlockSolo r g rest.length false ++ lockWake g) = some s' ∧
+      (unlockSolo r g rest.length false ++ lockWake g).length = 12 ∧
+      s'.pc g = .idle ∧ s'.holdsG g = true ∧ s'.owner = some g ∧ s'.tookOp g = true ∧
+      s'.pc r = .idle ∧ s'.holdsG r = false ∧ s'.queue = rest ∧ s'.lock = none := by
+  obtain ⟨n, log, hlog⟩ := hr
+  obtain ⟨hi, hi2⟩ := inv2_of_accepted hlog
+  obtain ⟨_, hk2⟩ := holdInv_of_accepted hlog
+  have hrn : r < s.n := by
+    by_cases hc : r < s.n
+    · exact hc
+    · have := hk2 r (by omega); rw [this] at hh; simp at hh
+  have hgn : g < s.n := by
+    by_cases hc : g < s.n
+    · exact hc
+    · have := hi.outside g (by omega); rw [this] at hg; simp at hg
+  have hrg : r ≠ g := by intro he; subst he; rw [hp] at hg; simp at hg
+  obtain ⟨s1, hrun1, h1l, h1o, h1q, h1g, h1t, h1r, h1h, h1n, _⟩ :=
+    unlockSolo_spec s r g rest hl hrn hrg hp hcs (hi2.hold1 r hh) hq hg
+  obtain ⟨s2, hrun2, h2l, h2o, h2q, h2g, h2h, h2t, h2u⟩ :=
+    lockWake_spec s1 g h1l (by omega) h1o h1g (by omega)
+  refine ⟨s2, ?_, rfl, h2g, h2h, h2o, h2t, ?_, ?_, by rw [h2q, h1q], h2l⟩
+  · rw [runLog_append, hrun1]; exact hrun2
+  · rw [(h2u r hrg).1]; exact h1r
+  · rw [(h2u r hrg).2]; exact h1h
+
+/-- **Hand-off to a timed waiter.**  The same when the front waiter `g` is inside `try_lock_for`,
+    polling its deadline: the agent drops the resume, so `g`'s first event alone is its deadline
+    event `timeout`; it then finds itself signalled and the mutex free and returns **true** —
+    again 12 events.  (Untimed waiters queued behind `g` stay parked until then: the hand-off is
+    delayed by at most `g`'s timeout, never lost.) -/
+theorem C06t_handoff_bound_timed (s : St) (hr : Reachable s) (r g : Nat) (rest : List Nat)
+    (hl : s.lock = none) (hp : s.pc r = .idle) (hh : s.holdsG r = true) (hcs : s.inCS r = false)
+    (hq : s.queue = g :: rest) (hg : s.pc g = .slp false) :
+    ∃ s', runLog step s (unlockSolo r g rest.length true ++ timedWake g) = some s' ∧
+      (unlockSolo r g rest.length true ++ timedWake g).length = 12 ∧
+      s'.pc g = .idle ∧ s'.holdsG g = true ∧ s'.owner = some g ∧ s'.tookOp g = true ∧
+      s'.pc r = .idle ∧ s'.holdsG r = false ∧ s'.queue = rest ∧ s'.lock = none := by
+  obtain ⟨n, log, hlog⟩ := hr
+  obtain ⟨hi, hi2⟩ := inv2_of_accepted hlog
+  obtain ⟨_, hk2⟩ := holdInv_of_accepted hlog
+  have hrn : r < s.n := by
+    by_cases hc : r < s.n
+    · exact hc
+    · have := hk2 r (by omega); rw [this] at hh; simp at hh
+  have hgn : g < s.n := by
+    by_cases hc : g < s.n
+    · exact hc
+    · have := hi.outside g (by omega); rw [this] at hg; simp at hg
+  have hrg : r ≠ g := by intro he; subst he; rw [hp] at hg; simp at hg
+  obtain ⟨s1, hrun1, h1l, h1o, h1q, h1g, h1r, h1h, h1n, _⟩ :=
+    unlockSolo_spec_timed s r g rest hl hrn hrg hp hcs (hi2.hold1 r hh) hq hg
+  obtain ⟨s2, hrun2, h2l, h2o, h2q, h2g, h2h, h2t, h2u⟩ :=
+    timedWake_spec s1 g h1l (by omega) h1o h1g
+  refine ⟨s2, ?_, rfl, h2g, h2h, h2o, h2t, ?_, ?_, by rw [h2q, h1q], h2l⟩
+  · rw [runLog_append, hrun1]; exact hrun2
+  · rw [(h2u r hrg).1]; exact h1r
+  · rw [(h2u r hrg).2]; exact h1h
+
+/-- the hypotheses of `C06t_handoff_bound` are satisfiable: the state after the first 12 events of
+    `run2` (task 0 holds and has left its critical section, task 1 is parked in `lock()`), and the
+    next 12 events of `run2` minus task 0's `done` are literally `unlockSolo ++ lockWake` -/
+example : ∃ s, runLog step (init 2) (run2.take 12) = some s ∧ s.lock = none ∧ s.pc 0 = .idle ∧
+    s.holdsG 0 = true ∧ s.inCS 0 = false ∧ s.queue = [1] ∧ s.pc 1 = .susp false ∧
+    unlockSolo 0 1 0 false ++ [.done 0] ++ lockWake 1 = (run2.drop 12).take 13 :=
+  ⟨_, rfl, rfl, rfl, rfl, rfl, rfl, rfl, rfl⟩
 
 end PikaVerif.C06t
